@@ -340,6 +340,11 @@ def _models(smt, K, kind, st):
         r"^AuthorFilter::matches$": m_amatch,
         r"^<keys::AuthorId as From<&\[u8; 32\]>>::from$": lambda ex, v: "(aid %s)" % v[0],
     }
+    # std combinators the query does not model itself (e.g. bool::then with a closure) come from the shared models
+    from stdmodels import std_models
+    for _pat, _fn in std_models().items():
+        if not any(_pat == p for p in models):
+            models.setdefault(_pat, _fn)
     return models
 
 
